@@ -28,3 +28,30 @@ func init() {
 			Why: "re-introduces D20: Restart starts a new reaper without stopping the previous run's ticker and reaper"},
 	)
 }
+
+// mutants that re-introduce the defects D21–D26 (found by seeding sub-agents on the unchanged tree, see DESIGN 9.3)
+func init() {
+	addMutants(
+		mutant{ID: "C06-pause-no-release", Prop: "C06", File: "worker.go", Expect: "R06.4", Quick: true,
+			Old: "\t\tw.status.Store(paused)\n\t\t// callers parked in WaitUntilFinished on the running worker were waiting\n\t\t// for the queue to empty as well; on a paused worker only the in-flight\n\t\t// jobs count, so their condition may hold from now on\n\t\tw.releaseWaiters(w.curProcessing.Load())\n", New: "\t\tw.status.Store(paused)\n",
+			Why: "re-introduces D21: Pause stores Paused without re-evaluating the barrier release"},
+		mutant{ID: "C17-completed-after-release", Prop: "C17", File: "worker.go", Expect: "R17.3", Quick: true,
+			Old: "\t\tw.metrics.incCompleted()\n\t\tw.freePoolNode(node)\n\t\tw.releaseWaiters(w.curProcessing.Add(^uint32(0)))\n", New: "\t\tw.freePoolNode(node)\n\t\tw.releaseWaiters(w.curProcessing.Add(^uint32(0)))\n\t\tw.metrics.incCompleted()\n",
+			Why: "re-introduces D22: Completed is counted after the slot (and the barrier) was released"},
+		mutant{ID: "C14-listener-before-running", Prop: "C14", File: "worker.go", Expect: "R14.3", Quick: true,
+			Old: "\tdefer w.goListenToContext()\n\tdefer w.notifyToPullNextJobs()\n\tdefer w.status.Store(running)\n\n\tw.goEventLoop()\n\tw.goRemoveIdleWorkers()\n", New: "\tdefer w.notifyToPullNextJobs()\n\tdefer w.status.Store(running)\n\n\tw.goEventLoop()\n\tw.goRemoveIdleWorkers()\n\tw.goListenToContext()\n",
+			Why: "re-introduces D23: the context listener is spawned before the status is Running"},
+		mutant{ID: "C13-bind-running-no-notify", Prop: "C13", File: "worker.go", Expect: "R13.4",
+			Old: "\t\tw.notifyToPullNextJobs()\n\t\treturn ErrRunningWorker\n", New: "\t\treturn ErrRunningWorker\n",
+			Why: "re-introduces D24: a queue bound to a running worker is not announced to the dispatcher"},
+		mutant{ID: "C14-bind-running-no-notify", Prop: "C14", File: "worker.go", Expect: "R14.1",
+			Old: "\t\tw.notifyToPullNextJobs()\n\t\treturn ErrRunningWorker\n", New: "\t\treturn ErrRunningWorker\n",
+			Why: "same change seen from C14 (the documented effect of a bind on a running worker is the wake-up)"},
+		mutant{ID: "C13-subscribe-after-start", Prop: "C13", File: "worker_binder.go", Expect: "R13.1", Quick: true,
+			Old: "\tdefer wb.start()\n\tdefer dq.Subscribe(wb.handleQueueSubscription)\n\tdefer wb.queues.Register(dq)\n", New: "\tdefer dq.Subscribe(wb.handleQueueSubscription)\n\tdefer wb.start()\n\tdefer wb.queues.Register(dq)\n",
+			Why: "re-introduces D25: the subscription becomes active after the start-up pass"},
+		mutant{ID: "C02-concurrency-wraps", Prop: "C02", File: "config.go", Expect: "R02.3", Quick: true,
+			Old: "\tif uint64(concurrency) > math.MaxUint32 {\n\t\treturn math.MaxUint32\n\t}\n\n", New: "",
+			Why: "re-introduces D26: the int → uint32 conversion of the limit is unbounded"},
+	)
+}
